@@ -143,8 +143,10 @@ def run(pid, tier, seed, scratch, t0):
             own = o.get('owners') if 'owners' in o else ownership.owners(r['base_unit'], o['fn'], o['arm'])
             if pid not in own:
                 continue
+            if o.get('undecided'):
+                undecided.append(o['undecided'])
             if o.get('bounded'):
-                bounded.append(dict(name=o['name'], bound=o['bounded'], result='failed' if o['failures'] else 'passed'))
+                bounded.append(dict(name=o['name'], bound=o['bounded'], result='undecided' if o.get('undecided') else ('failed' if o['failures'] else 'passed')))
             else:
                 owned.append(o)
             fn_contract.add(o.get('function_label') or ('%s::%s' % (r['base_unit'], o['fn'])))
@@ -172,7 +174,7 @@ def run(pid, tier, seed, scratch, t0):
             violations.append((o, f, r))
 
     wall = time.time() - t0
-    discharged = len([o for o in owned if not o['failures']])
+    discharged = len([o for o in owned if not o['failures'] and not o.get('undecided')])
     level = plan.PLAN[pid].get('level', 'proof')
     samples = [dict(obligation=o['name'], contract=o.get('contract', ''), status='failed' if o['failures'] else 'discharged')
                for o in owned[:6]]
@@ -203,12 +205,19 @@ def run(pid, tier, seed, scratch, t0):
         print('KNOWN-FINDING: property=%s %s' % (pid, k['what']))
     if violations:
         import replay
+        real = 0
         for o, f, r in violations:
-            path, found = replay.make_replay(pid, o, f, r, REPO, scratch.dir)
+            path, found, spurious = replay.make_replay(pid, o, f, r, REPO, scratch.dir)
+            if spurious:
+                # the model checker's counterexample does not replay on the real code: tool imprecision, not a violation
+                undecided.append('obligation %s: the counterexample of the model checker passes when run natively (see %s)' % (o['name'], path))
+                continue
+            real += 1
             tail = '' if found else ' no-failing-input-found'
             print('obligation %s failed: %s [%s] %s' % (o['name'], f.get('message', ''), f['kind'], f.get('text', '')))
             print('VIOLATION property=%s replay=%s%s' % (pid, path, tail))
-        return 1
+        if real:
+            return 1
     if undecided:
         for u in undecided:
             print('UNDECIDED property=%s reason=%s' % (pid, u))
@@ -253,7 +262,7 @@ def run_verus_variant(unit, features, tag, scratch):
 def run_verus(unit, scratch):
     spec = plan.VERUS_UNITS[unit]
     r = verus_unit.run_unit(spec['unit'], REPO, scratch.dir, features=spec.get('features'),
-                            rlimit=spec.get('rlimit', 30), tag=spec.get('tag'))
+                            rlimit=spec.get('rlimit', 30), tag=spec.get('tag'), multiple_errors=spec.get('multiple_errors', 4))
     return finish_verus(r)
 
 
